@@ -45,9 +45,23 @@ def dump_mir(crate, features=(), debug_assertions=False, repo=REPO, cache=CACHE)
     out = os.path.join(d, f'{tag}-{th}.mir')
     if os.path.exists(out) and os.path.getsize(out) > 1000:
         return out
+    import fcntl
+    lock = open(os.path.join(d, '.lock'), 'w')
+    fcntl.flock(lock, fcntl.LOCK_EX)
+    try:
+        if os.path.exists(out) and os.path.getsize(out) > 1000:
+            return out
+        return _dump_mir_locked(crate, features, debug_assertions, repo, cache, tag, d, out)
+    finally:
+        fcntl.flock(lock, fcntl.LOCK_UN)
+        lock.close()
+
+
+def _dump_mir_locked(crate, features, debug_assertions, repo, cache, tag, d, out):
     env = dict(os.environ)
     env['CARGO_NET_OFFLINE'] = 'true'
-    env['CARGO_TARGET_DIR'] = os.path.join(cache, 'target-mir-' + tag)
+    cfgtag = ('-'.join(sorted(features)) if features else 'default') + ('-dbg' if debug_assertions else '')
+    env['CARGO_TARGET_DIR'] = os.path.join(cache, 'target-mir-' + cfgtag)
     env.pop('RUSTFLAGS', None)
     cmd = ['cargo', '+nightly', 'rustc', '--offline', '-p', crate, '--lib']
     if features:
@@ -66,11 +80,11 @@ def dump_mir(crate, features=(), debug_assertions=False, repo=REPO, cache=CACHE)
     with open(out + '.tmp', 'wb') as fh:
         fh.write(r.stdout)
     os.replace(out + '.tmp', out)
-    # drop older dumps of the same tag
-    for n in os.listdir(d):
-        if n.startswith(tag + '-') and n.endswith('.mir') and os.path.join(d, n) != out:
-            if re.match(re.escape(tag) + r'-[0-9a-f]{16}\.mir$', n):
-                os.remove(os.path.join(d, n))
+    # keep the three most recent dumps per tag (switching between trees does not force a re-dump)
+    olds = [n for n in os.listdir(d) if re.match(re.escape(tag) + r'-[0-9a-f]{16}\.mir$', n) and os.path.join(d, n) != out]
+    olds.sort(key=lambda n: os.path.getmtime(os.path.join(d, n)), reverse=True)
+    for n in olds[2:]:
+        os.remove(os.path.join(d, n))
     return out
 
 def builtin_items(items):
@@ -334,9 +348,12 @@ class Program:
         if 'promoted[' in last:
             # fn_path::promoted[i] : match the enclosing function
             out = []
-            for f in cands:
-                if normalise_callee(f.name) == n:
-                    out.append(f)
+            if fn is not None:
+                out = [f for f in cands if f.name == fn.name + '::' + last and f.crate == fn.crate]
+            if not out:
+                for f in cands:
+                    if normalise_callee(f.name) == n:
+                        out.append(f)
             if not out and fn is not None:
                 for f in cands:
                     if normalise_callee(f.name) == normalise_callee(fn.name) + '::' + last:
@@ -363,7 +380,15 @@ class Program:
                     break
             if ok:
                 out.append(f)
+        if not out and len(cands) == 1:
+            return cands[0]
+        if not out and len(cands) > 1:
+            c2 = [f for f in cands if quals and f.crate == quals[0]]
+            if len(c2) == 1:
+                return c2[0]
+            raise Unsupported(f'ambiguous constant {s}: {[f.name for f in cands]}')
         return out[0] if out else None
+
     # ------------------------------------------------------------------ call resolution
     def resolve(self, callee, norm, args, fr, eng):
         """-> (Fn | None, subst)"""
@@ -385,14 +410,23 @@ class Program:
                 raise Unsupported(f'ambiguous call {callee}: {[x[0].name for x in c]}')
             return None, None
         segs = split_path(raw)
+        ki = [i for i, sg in enumerate(segs) if sg.startswith('<impl ')]
+        if ki and ki[-1] == len(segs) - 2 and ki[-1] > 0:
+            segs = segs[ki[-1]:]
         if segs[0].startswith('<') and len(segs) == 2:
             # <impl Type>::method  or <Type>::method
             inner = segs[0][1:-1]
             inner = inner[5:] if inner.startswith('impl ') else inner
             c = self._method_cands(norm_ty(inner), None, strip_generics(segs[1]))
+            inh = [x for x in c if x[1] is None]
+            if inh:
+                c = inh
             c = self._narrow_by_runtime(c, args, eng)
+            c = self._narrow_by_arity(c, args)
             if len(c) == 1:
                 return c[0][0], self._subst_for(c[0], inner, raw, fr)
+            if len(c) > 1:
+                raise Unsupported(f'ambiguous call {callee}: {[x[0].name for x in c]}')
             return None, None
         if len(segs) >= 2:
             self_ty = '::'.join(segs[:-1])
